@@ -77,12 +77,34 @@ type cfg struct {
 	kind                       string
 	q, b, t, p, o, n, fl, stop int
 	hy, fin, ns                int
+	tk, sk                     int // tk: batch time-out kind (0: t ms, 1: negative, 2: zero, 3: 1ns, 4: large); sk: barrier skew
 	seed                       uint64
 }
 
 func (c cfg) line() string {
-	return fmt.Sprintf("cfg kind=%s q=%d b=%d t=%d p=%d o=%d n=%d fl=%d stop=%d hy=%d fin=%d ns=%d seed=%d",
-		c.kind, c.q, c.b, c.t, c.p, c.o, c.n, c.fl, c.stop, c.hy, c.fin, c.ns, c.seed)
+	return fmt.Sprintf("cfg kind=%s q=%d b=%d t=%d tk=%d p=%d o=%d n=%d fl=%d stop=%d hy=%d fin=%d ns=%d sk=%d seed=%d",
+		c.kind, c.q, c.b, c.t, c.tk, c.p, c.o, c.n, c.fl, c.stop, c.hy, c.fin, c.ns, c.sk, c.seed)
+}
+
+// timeout is the configured batch time-out: besides the plain `t` ms, the legal corner values (a timer with a
+// duration <= 0 fires immediately) and a large one (Stop then waits for the select to time out).
+func (c cfg) timeout() time.Duration {
+	switch c.tk {
+	case 1:
+		return -time.Millisecond
+	case 2:
+		return 0
+	case 3:
+		return time.Nanosecond
+	case 4:
+		return 250 * time.Millisecond
+	}
+
+	return time.Duration(c.t) * time.Millisecond
+}
+
+func (c cfg) timeoutName() string {
+	return [...]string{"ms", "negative", "zero", "1ns", "large"}[c.tk%5]
 }
 
 func parseCfg(l string) (cfg, bool) {
@@ -123,6 +145,10 @@ func parseCfg(l string) (cfg, bool) {
 			c.fin = int(n)
 		case "ns":
 			c.ns = int(n)
+		case "tk":
+			c.tk = int(n)
+		case "sk":
+			c.sk = int(n)
 		case "seed":
 			c.seed = n
 		}
@@ -251,8 +277,14 @@ func (b *recBatch) Commit() error {
 
 func newWorld(c cfg) *world {
 	w := &world{c: c, base: mapdb.NewMapDB()}
-	w.bw = kvstore.NewBatchedWriter(&recStore{KVStore: w.base, w: w},
-		kvstore.WithQueueSize(c.q), kvstore.WithBatchSize(c.b), kvstore.WithBatchTimeout(time.Duration(c.t)*time.Millisecond))
+	opts := []kvstore.Option{kvstore.WithBatchTimeout(c.timeout())}
+	if c.q > 0 {
+		opts = append(opts, kvstore.WithQueueSize(c.q))
+	}
+	if c.b > 0 {
+		opts = append(opts, kvstore.WithBatchSize(c.b))
+	}
+	w.bw = kvstore.NewBatchedWriter(&recStore{KVStore: w.base, w: w}, opts...)
 	for i := 0; i < c.o; i++ {
 		w.objs = append(w.objs, &obj{w: w, id: i})
 	}
@@ -344,10 +376,17 @@ func waitFor(ch chan struct{}, d time.Duration) bool {
 // after Stop returned finishes its last batch within one batch time-out).
 func (w *world) settle() {
 	quiet := time.Duration(w.c.t)*time.Millisecond*2 + 10*time.Millisecond
+	if w.c.kind == "first-race" {
+		quiet = 300 * time.Microsecond
+	}
 	deadline := time.Now().Add(3 * time.Second)
 	last, since := w.traceLen(), time.Now()
 	for time.Now().Before(deadline) {
-		time.Sleep(time.Millisecond)
+		if w.c.kind == "first-race" {
+			time.Sleep(100 * time.Microsecond)
+		} else {
+			time.Sleep(time.Millisecond)
+		}
 		if n := w.traceLen(); n != last {
 			last, since = n, time.Now()
 		} else if time.Since(since) > quiet {
@@ -411,6 +450,7 @@ func (w *world) finish(prod []chan struct{}, stoppers []chan struct{}, bound tim
 // scenarios
 
 const stressBound = 6 * time.Second
+const raceBound = 3 * time.Second
 
 func run(c cfg) []string {
 	w := newWorld(c)
@@ -477,6 +517,54 @@ func run(c cfg) []string {
 		waitFor(p0, stressBound)
 
 		return w.finish([]chan struct{}{p0, p1}, []chan struct{}{s0}, stressBound)
+
+	case "first-race":
+		// fresh writer: the very first Enqueue, StopBatchWriter (and a second Enqueue) are released together by a
+		// spin barrier, with a small skew; needs the calls to really run in parallel
+		n := c.p + 1
+		var ready atomic.Int32
+		var start atomic.Bool
+		barrier := func(skew int) {
+			ready.Add(1)
+			for !start.Load() {
+			}
+			for i := 0; i < skew; i++ {
+				ready.Load()
+			}
+		}
+		skewE, skewS := 0, 0
+		if c.sk%2 == 0 {
+			skewE = c.sk / 2
+		} else {
+			skewS = c.sk / 2
+		}
+		// the call events are recorded before the barrier (the trace mutex would stagger the calls): a call
+		// interval that starts early only makes the predicate more lenient towards the implementation
+		var prod []chan struct{}
+		for p := 0; p < c.p; p++ {
+			p := p
+			prod = append(prod, w.spawn(p, func() {
+				o := w.objs[p%c.o]
+				o.ver.Add(1)
+				w.rec("ec", p, o.id)
+				barrier(skewE * (1 + p))
+				w.bw.Enqueue(o)
+				w.rec("er", p, o.id)
+				w.erets.Add(1)
+			}))
+		}
+		s0 := w.spawn(100, func() {
+			w.rec("tc", 0)
+			barrier(skewS)
+			w.bw.StopBatchWriter()
+			w.rec("tr", 0)
+		})
+		for dl := time.Now().Add(stressBound); int(ready.Load()) < n && time.Now().Before(dl); {
+			runtime.Gosched()
+		}
+		start.Store(true)
+
+		return w.finish(prod, []chan struct{}{s0}, raceBound)
 
 	case "two-stops":
 		// the object's BatchWrite is held on a channel; Stop#0 is started and observed waiting, then Stop#1 is
@@ -834,8 +922,12 @@ func emit(r *hx.Run, sub uint64, res result) (failed bool) {
 	}
 	r.Count("kind:" + res.c.kind)
 	r.Count(fmt.Sprintf("q:%d", res.c.q))
-	r.Count(fmt.Sprintf("b:%d", res.c.b))
-	r.Count(fmt.Sprintf("t:%dms", res.c.t))
+	r.Count(fmt.Sprintf("b:%d", res.c.b)) // 0 = default (10000)
+	if res.c.tk == 0 {
+		r.Count(fmt.Sprintf("t:%dms", res.c.t))
+	} else {
+		r.Count("t:" + res.c.timeoutName())
+	}
 	r.Count(fmt.Sprintf("producers:%d", res.c.p))
 	r.Count(fmt.Sprintf("stop-callers:%d", max(1, res.c.ns)))
 	verdict := "accept"
@@ -975,29 +1067,71 @@ func main() {
 	if par > 8 {
 		par = 8
 	}
+	if runtime.GOMAXPROCS(0) < 8 {
+		runtime.GOMAXPROCS(8)
+	}
 	timeouts := []int{1, 2, 5, 10, 20, 50}
+	// batch time-out kinds: mostly plain milliseconds; the corner values negative / 0 / 1ns; now and then large
+	pickTk := func(rng *hx.Rng) int {
+		switch x := rng.Intn(100); {
+		case x < 8:
+			return 1
+		case x < 16:
+			return 2
+		case x < 24:
+			return 3
+		case x < 26:
+			return 4
+		}
+
+		return 0
+	}
+	// batch sizes 1, 2, 3, 4 and the default (option not passed: 10000)
+	pickB := func(rng *hx.Rng) int {
+		if rng.Chance(1, 6) {
+			return 0
+		}
+
+		return rng.Range(1, 4)
+	}
 	var forced []cfg
 	for i := 0; i < 150*r.Scale; i++ {
-		_, s := r.Rng.Fork()
-		forced = append(forced, cfg{kind: "stop-after-first", q: 1 + i%4, b: 1 + (i/4)%4, t: timeouts[i%3], p: 1, o: 1, n: 1, seed: s})
+		rng, s := r.Rng.Fork()
+		forced = append(forced, cfg{kind: "stop-after-first", q: 1 + i%4, b: pickB(rng), t: timeouts[i%3], tk: pickTk(rng), p: 1, o: 1, n: 1, seed: s})
 	}
 	runBatch(r, forced, 4)
 	forced = forced[:0]
 	for i := 0; i < 12*r.Scale; i++ {
-		_, s := r.Rng.Fork()
-		forced = append(forced, cfg{kind: "window", q: 1 + i%4, b: 1 + (i/4)%4, t: timeouts[i%3], p: 1, o: 1, n: 1, seed: s})
-		_, s = r.Rng.Fork()
-		forced = append(forced, cfg{kind: "window-dup", q: 1 + i%4, b: 1 + (i/4)%4, t: timeouts[i%3], p: 2, o: 1, n: 1, seed: s})
+		rng, s := r.Rng.Fork()
+		forced = append(forced, cfg{kind: "window", q: 1 + i%4, b: 1 + (i/4)%4, t: timeouts[i%3], tk: pickTk(rng) % 4, p: 1, o: 1, n: 1, seed: s})
+		rng, s = r.Rng.Fork()
+		forced = append(forced, cfg{kind: "window-dup", q: 1 + i%4, b: 1 + (i/4)%4, t: timeouts[i%3], tk: pickTk(rng) % 4, p: 2, o: 1, n: 1, seed: s})
 	}
 	for i := 0; i < 12*r.Scale; i++ {
-		_, s := r.Rng.Fork()
-		forced = append(forced, cfg{kind: "two-stops", q: 1 + i%4, b: 1 + (i/4)%4, t: timeouts[i%3], p: 1, o: 1, n: 1, ns: 2, seed: s})
+		rng, s := r.Rng.Fork()
+		forced = append(forced, cfg{kind: "two-stops", q: 1 + i%4, b: 1 + (i/4)%4, t: timeouts[i%3], tk: pickTk(rng) % 4, p: 1, o: 1, n: 1, ns: 2, seed: s})
 	}
 	for q := 1; q <= 2; q++ {
 		_, s := r.Rng.Fork()
 		forced = append(forced, cfg{kind: "window-block", q: q, b: 1, t: 1, p: q + 1, o: q + 1, n: 1, seed: s})
 	}
 	runBatch(r, forced, 4)
+	// first Enqueue || Stop (|| second Enqueue) on thousands of fresh writers, two at a time so that the
+	// barrier-released calls really run in parallel
+	races := 3000
+	if r.Scale > 1 {
+		races = 30000
+	}
+	forced = forced[:0]
+	for i := 0; i < races; i++ {
+		_, s := r.Rng.Fork()
+		forced = append(forced, cfg{kind: "first-race", q: 1 + i%2, b: 1 + (i/2)%2, t: 1, tk: (i / 4) % 4, p: 1 + (i/16)%2, o: 2, n: 1, fin: 1,
+			sk: i % 96, seed: s})
+		if len(forced) == 500 || i == races-1 {
+			runBatch(r, forced, 2)
+			forced = forced[:0]
+		}
+	}
 	n := 2500
 	if r.Scale > 1 {
 		n = 30000
@@ -1005,8 +1139,11 @@ func main() {
 	var cs []cfg
 	for i := 0; i < n; i++ {
 		rng, s := r.Rng.Fork()
-		c := cfg{kind: "stress", q: rng.Range(1, 4), b: rng.Range(1, 4), t: hx.Pick(rng, timeouts), p: rng.Range(1, 4),
+		c := cfg{kind: "stress", q: rng.Range(1, 4), b: pickB(rng), t: hx.Pick(rng, timeouts), tk: pickTk(rng), p: rng.Range(1, 4),
 			o: rng.Range(1, 4), n: rng.Range(1, 12), fin: 1, seed: s}
+		if rng.Chance(1, 8) {
+			c.q = 0 // default queue size (option not passed)
+		}
 		if rng.Chance(1, 2) {
 			c.fl = rng.Range(1, 4)
 		}
